@@ -328,5 +328,10 @@ void CDNS::CdnsDecoder::read_to_buffer()
         m_input.read(reinterpret_cast<char*>(m_buffer), BUFFER_SIZE);
         m_p = m_buffer;
         m_end = m_buffer + m_input.gcount();
+
+        // Nothing could be read (empty or unreadable stream, or input length is an exact
+        // multiple of the buffer size): this is the end of input, not new data
+        if (m_p == m_end)
+            throw CdnsDecoderEnd("End of input stream");
     }
 }
